@@ -420,3 +420,164 @@ Proof.
   - intro E. unfold process_block in H. rewrite E in H. rewrite E in H. apply H. reflexivity.
 Qed.
 End PB2.
+
+(* ---------------- inode scalars: type, file size, sparse bytes, block start ---------------- *)
+(* the inode is extended exactly if one of its fields does not fit the basic layout *)
+Definition Jino (i : inode) : Prop := i_ext i = ext_canon (i_size i) (i_sparse i) (i_start i).
+
+(* all hypotheses must have been reverted into the goal *)
+Ltac jsolve :=
+  unfold Jino, ext_canon, i_set_block_start, i_set_file_size, i_make_basic, i_make_extended, i_add_sparse, U32MAX;
+  cbn [i_ext i_size i_sparse i_start i_fidx i_foff i_blocks negb];
+  repeat (match goal with
+          | |- context [?a <? ?b] => destruct (N.ltb_spec a b)
+          end; cbn [i_ext i_size i_sparse i_start i_fidx i_foff i_blocks negb orb andb]);
+  intros; repeat split; try congruence; try lia.
+
+Lemma J_new : Jino new_inode.
+Proof. reflexivity. Qed.
+
+Lemma J_set_block_size i idx v : Jino i -> Jino (i_set_block_size i idx v).
+Proof. intro H. exact H. Qed.
+
+Lemma J_set_frag i idx off : Jino i -> Jino (i_set_frag i idx off).
+Proof. intro H. exact H. Qed.
+
+(* make_extended followed by sparse += n, n > 0 *)
+Lemma J_sp_ext i n : Jino i -> 0 < n ->
+  Jino (i_add_sparse (i_make_extended i) n) /\
+  i_sparse (i_add_sparse (i_make_extended i) n) = i_sparse i + n /\
+  i_start (i_add_sparse (i_make_extended i) n) = i_start i /\
+  i_size (i_add_sparse (i_make_extended i) n) = i_size i.
+Proof.
+  destruct i as [e sz sp st fi fo bl]. destruct e; jsolve.
+Qed.
+
+(* the block start is set once per file: it is still 0 (at any rate below 4G) when this happens *)
+Lemma J_set_block_start i loc : Jino i -> i_start i <= U32MAX ->
+  Jino (i_set_block_start i loc) /\
+  i_sparse (i_set_block_start i loc) = i_sparse i /\
+  i_start (i_set_block_start i loc) = loc /\
+  i_size (i_set_block_start i loc) = i_size i.
+Proof.
+  destruct i as [e sz sp st fi fo bl]. destruct e; jsolve.
+Qed.
+
+(* file sizes only grow *)
+Lemma J_set_file_size i n : Jino i ->
+  Jino (i_set_file_size i (i_size i + n)) /\
+  i_sparse (i_set_file_size i (i_size i + n)) = i_sparse i /\
+  i_start (i_set_file_size i (i_size i + n)) = i_start i.
+Proof.
+  destruct i as [e sz sp st fi fo bl]. cbn [i_size]. set (z := sz + n). assert (Hz : sz <= z) by (unfold z; lia).
+  clearbody z. revert Hz. destruct e; jsolve.
+Qed.
+
+(* file size: only set_file_size changes it *)
+Lemma sz_make_extended i : i_size (i_make_extended i) = i_size i.
+Proof. unfold i_make_extended. destruct (i_ext i); reflexivity. Qed.
+
+Lemma sz_make_basic i : i_size (i_make_basic i) = i_size i.
+Proof.
+  unfold i_make_basic. destruct (negb (i_ext i)); [reflexivity|].
+  destruct (U32MAX <? i_start i); [reflexivity|]. destruct (U32MAX <? i_size i); [reflexivity|].
+  destruct (0 <? i_sparse i); reflexivity.
+Qed.
+
+Lemma sz_set_file_size i z : i_size (i_set_file_size i z) = z.
+Proof.
+  unfold i_set_file_size. destruct (i_ext i).
+  - destruct (z <? U32MAX); [rewrite sz_make_basic|]; reflexivity.
+  - destruct (U32MAX <? z); reflexivity.
+Qed.
+
+Lemma sz_set_block_start i loc : i_size (i_set_block_start i loc) = i_size i.
+Proof.
+  unfold i_set_block_start. destruct (i_ext i).
+  - destruct (loc <? U32MAX); [rewrite sz_make_basic|]; reflexivity.
+  - destruct (U32MAX <? loc); [cbn [i_size]; apply sz_make_extended|reflexivity].
+Qed.
+
+(* what process_completed_block does to the inode of the block *)
+Definition pcb_ino (b : blk) (loc : N) (i : inode) : inode :=
+  let i1 :=
+    if bhas SPARSE b then i_set_block_size (i_add_sparse (i_make_extended i) (len (b_data b))) (b_idx b) 0
+    else if negb (len (b_data b) =? 0) then
+      if bhas FRAGBLK b then i else i_set_block_size i (b_idx b) (size_word b)
+    else i in
+  if bhas LAST b then i_set_block_start i1 loc else i1.
+
+Lemma pcb_ino_size b loc i : i_size (pcb_ino b loc i) = i_size i.
+Proof.
+  unfold pcb_ino.
+  assert (E : i_size (if bhas SPARSE b then i_set_block_size (i_add_sparse (i_make_extended i) (len (b_data b))) (b_idx b) 0
+    else if negb (len (b_data b) =? 0) then
+      if bhas FRAGBLK b then i else i_set_block_size i (b_idx b) (size_word b)
+    else i) = i_size i).
+  { destruct (bhas SPARSE b); [cbn [i_size i_set_block_size i_add_sparse]; apply sz_make_extended|].
+    destruct (negb _); [|reflexivity]. destruct (bhas FRAGBLK b); reflexivity. }
+  destruct (bhas LAST b); [rewrite sz_set_block_start|]; exact E.
+Qed.
+
+Lemma pcb_ino_J b loc i :
+  Jino i -> (bhas LAST b = true -> i_start i <= U32MAX) -> (bhas SPARSE b = true -> 0 < len (b_data b)) ->
+  Jino (pcb_ino b loc i) /\
+  i_sparse (pcb_ino b loc i) = (if bhas SPARSE b then i_sparse i + len (b_data b) else i_sparse i) /\
+  i_start (pcb_ino b loc i) = (if bhas LAST b then loc else i_start i).
+Proof.
+  intros HJ HL HS. unfold pcb_ino.
+  set (i1 := if bhas SPARSE b then _ else _).
+  assert (H1 : Jino i1 /\ i_sparse i1 = (if bhas SPARSE b then i_sparse i + len (b_data b) else i_sparse i) /\
+               i_start i1 = i_start i).
+  { unfold i1. destruct (bhas SPARSE b).
+    - destruct (J_sp_ext i (len (b_data b)) HJ (HS eq_refl)) as (A & B & C & _).
+      split; [apply J_set_block_size; exact A|]. split; [exact B|exact C].
+    - destruct (negb _); [|auto]. destruct (bhas FRAGBLK b); [auto|].
+      split; [apply J_set_block_size; exact HJ|auto]. }
+  clearbody i1. destruct H1 as (A & B & C).
+  destruct (bhas LAST b).
+  - destruct (J_set_block_start i1 loc A) as (D & E & F & _); [rewrite C; apply HL; reflexivity|].
+    split; [exact D|]. split; [rewrite E; exact B|exact F].
+  - split; [exact A|]. split; [exact B|exact C].
+Qed.
+
+(* ---------------- LAST blocks per inode ---------------- *)
+Lemma cntL_app k a b : cntL k (a ++ b) = (cntL k a + cntL k b)%nat.
+Proof. unfold cntL. rewrite filter_app, app_length. reflexivity. Qed.
+
+Lemma cntL_firstn k n l : (cntL k (firstn n l) <= cntL k l)%nat.
+Proof. rewrite <- (firstn_skipn n l) at 2. rewrite cntL_app. lia. Qed.
+
+Lemma cntL_snoc_not k l b : isL k b = false -> cntL k (l ++ [b]) = cntL k l.
+Proof. intro H. rewrite cntL_app. unfold cntL at 2. cbn [filter]. rewrite H. cbn [length]. lia. Qed.
+
+Lemma st_fold_zero k : forall ws a, cntL k (map fst ws) = O -> fold_left (st_blk k) ws a = a.
+Proof.
+  induction ws as [|w ws IH]; intros a H; [reflexivity|].
+  cbn [fold_left map] in *. unfold cntL in H. cbn [filter] in H. unfold st_blk at 2. unfold isL in H at 1.
+  destruct ((k =? b_ino (fst w)) && bhas LAST (fst w)); [discriminate H|]. apply IH. exact H.
+Qed.
+
+Lemma start_canon_snoc ws w k : start_canon (ws ++ [w]) k = st_blk k (start_canon ws k) w.
+Proof. unfold start_canon. rewrite fold_left_app. reflexivity. Qed.
+
+Lemma sparse_canon_flush splog ws b k :
+  sparse_canon splog (ws ++ [b]) k = sp_blk k (sparse_canon splog ws k) b.
+Proof. unfold sparse_canon. rewrite fold_left_app. reflexivity. Qed.
+
+Lemma sp_fold_add k n : forall ws a, fold_left (sp_blk k) ws (a + n) = fold_left (sp_blk k) ws a + n.
+Proof.
+  induction ws as [|b ws IH]; intros a; [reflexivity|]. cbn [fold_left]. unfold sp_blk at 2 4.
+  destruct ((k =? b_ino b) && bhas SPARSE b); [|apply IH].
+  replace (a + n + len (b_data b)) with (a + len (b_data b) + n) by lia. apply IH.
+Qed.
+
+Lemma sparse_canon_sp splog ws k e :
+  sparse_canon (splog ++ [e]) ws k = sp_add k (sparse_canon splog ws k) e.
+Proof.
+  unfold sparse_canon. rewrite fold_left_app. cbn [fold_left]. unfold sp_add at 1 3.
+  destruct (k =? fst e); [apply sp_fold_add|reflexivity].
+Qed.
+
+Lemma size_canon_app a b k : size_canon (a ++ b) k = fold_left (sz_ev k) b (size_canon a k).
+Proof. unfold size_canon. apply fold_left_app. Qed.
